@@ -920,7 +920,8 @@ func (e *Engine) runPath(entry *ssa.Function) {
 		for _, l := range e.p.reach {
 			e.res.Reach[l]++
 		}
-		if e.p.symChecks > 0 {
+		if e.p.symChecks > 0 || len(e.p.reach) > 0 {
+			// non-trivial: discharged a symbolic assertion or ran the harness to its end label
 			e.res.NontrivPaths++
 		}
 	case "infeasible":
